@@ -120,6 +120,18 @@ SubsequenceLaw == Closed => \A cs \in OptCats : \A s \in 2..Len(stages) : \A i \
                  LET n == stages[s][i]  full == CellView(n, [DefaultOpts EXCEPT !.enc = "ekern"]).t
                      filt == CellView(n, [DefaultOpts EXCEPT !.enc = "ekern", !.cats = cs]).t IN
                  n.hdr # NoPtr => (filt \in Nullish \/ IsSubseq(PartsOf(filt), PartsOf(full)))
+\* C18: barlines are detected identically under every spine type: the measure index recomputed with every non-kern spine
+\* re-typed to T is the measure index
+RetypedCandidate(s, first, T) ==
+  \E i \in 1..Len(stages[s]) :
+     LET n == stages[s][i]  ty == IF TypeOf(n) \in KernLike THEN TypeOf(n) ELSE T  cat == CatOf(ty, n.cell.k) IN
+     /\ n.cell.k \notin OpClasses /\ n.cell.k # "fcom"
+     /\ (cat = "BARLINES" \/ (first /\ cat \in CoreCats))
+RECURSIVE RetypedScan(_, _, _)
+RetypedScan(s, acc, T) ==
+  IF s > Len(stages) THEN acc
+  ELSE RetypedScan(s + 1, IF IsSpineStage(s) /\ RetypedCandidate(s, acc = <<>>, T) THEN Append(acc, s) ELSE acc, T)
+BarlinesSameUnderEveryType == \A T \in {HText, HDynam, HDyn, HHarm, HMxhm, HFing, <<42, 42, 122, 122>>} : RetypedScan(2, <<>>, T) = mstarts
 \* C07: single-measure exports partition the data lines of the full export; ranges glue at shared barlines
 KernOnly == \A s \in 2..Len(stages) : IsHeaderStage(s) => \A i \in 1..Len(stages[s]) : stages[s][i].cell.t = HKern
 PartitionLaw == (Closed /\ KernOnly /\ M >= 1) =>
